@@ -313,6 +313,7 @@ def main():
             ck.case(("quic", suite, cr))
     if m:
         ck.cov["oracle_queries"] = m.queries
+        ck.cov["model_runs_skipped"] = m.skipped
         m.close()
     ck.cov["traces_validated_against_impl"] = ck.cov["evaluations"]
     ck.cov["rule"] = ("installed TLS keys: (version x table suite valid for it) with random 48-byte master secrets / TLS 1.3 secrets, randoms and a key log holding "
